@@ -245,6 +245,7 @@ def main():
         assumptions=['finite floats are exact reals', 'dense reference kernels are the model\'s own (validated against torch by running the repository test-suite on the model and by replay)',
                      'exp/expm1/logaddexp/log_softmax use log-domain elements, log/log1p non-negative elements (representation by exponential)',
                      'tolist/len use concrete element values (float() is a C boundary)'],
+        allowed_unmodelled=['exp of concrete log-domain value'],
         regimes=['T', 'F(nonlinear ops)'], technique='SMT equivalence of patterned vs dense execution on a z3-valued tensor model')
     sys.exit(code)
 
